@@ -10,6 +10,7 @@ prints other numbers is a step the trace specification does not have.  Shipped
 fixtures, examples and systematic mutants of them go through the same spec."""
 import json
 import os
+import re
 
 import langpipe
 import printer
@@ -34,6 +35,16 @@ JOBS = {
                     "Ops": '{"+", "-", "*", "%", "<", "<=", ">", ">=", "==", "!=", "&&", "||"}'}),
     ],
 }
+# the extensions of Lang.tla (records, closures handed around, arrays, numeric match) at budgets one compilation
+# with rustc per program allows; x_ jobs are outside C02's list: generated Rust against the VM only
+def _ext(job, budget):
+    base = dict(next(c for l, c in langpipe.EXT_CORE["quick"] + langpipe.EXT_X["quick"] if l == job))
+    base["Budget"] = budget
+    return (re.sub(r"[0-9]+$", "", job) + str(budget), base)
+
+
+EXT = {"quick": [_ext("hof8", 6), _ext("recclo8", 6), _ext("rec6", 5), _ext("x_arr5", 4), _ext("x_matchst5", 4)],
+       "thorough": [_ext("hof8", 7), _ext("recclo8", 7), _ext("rec6", 6), _ext("x_arr5", 5), _ext("x_matchst5", 5)]}
 NSAMPLES = {"quick": 32, "thorough": 256}
 MUT_PER_FILE = {"quick": 2, "thorough": 12}
 RUSTDIR = os.path.join(vlib.WORK, "rust")
@@ -168,7 +179,7 @@ def run(tier):
             nontrivial.add(key)
 
     # ---- (a) TLC-generated programs
-    for label, consts in JOBS[tier]:
+    for label, consts in JOBS[tier] + EXT[tier]:
         reps = langpipe.generate(chk, label, consts, timeout=3000)
         live = [(i, r) for i, r in enumerate(reps) if not r["oom"]]
         reqs = []
@@ -179,7 +190,7 @@ def run(tier):
             rep = reps[rid_]
             src = printer.program(rep["prog"])
             judge(f"{label}:{rid_}", label, src, {"src": src, "inputs": rep["inputs"], "n": len(rep["expect"]), "job": label},
-                  vlib.canon_key(src), out, rout, crash, rcrash, rep=rep)
+                  vlib.canon_key(src), out, rout, crash, rcrash, rep=None if label.startswith("x_") else rep)
         if reps:
             chk.add_sample({"job": label, "source": printer.program(reps[len(reps) // 2]["prog"])})
 
